@@ -13,6 +13,7 @@ import (
 	"github.com/youchainhq/go-youchain/common"
 	"github.com/youchainhq/go-youchain/core"
 	"github.com/youchainhq/go-youchain/core/types"
+	"github.com/youchainhq/go-youchain/local"
 )
 
 const (
@@ -184,6 +185,10 @@ func (o *c06) deliver(nd *impNode, refs []*blockRef, how string) {
 	last := refs[len(refs)-1]
 	head := nd.chain().CurrentBlock()
 	r.Logf("  import %s %s%s -> err=%v head=%d", nd.name(), heights(refs), how, err, head.NumberU64())
+	if (err != nil || head.Hash() != last.blk.Hash()) && !strings.Contains(how, "side") && o.diagnose(nd) {
+		o.drop(nd)
+		return
+	}
 	if err != nil {
 		r.Report(o.rejectClass(refs, strings.Contains(how, "side")), "importer %q rejected honestly built block(s) %s%s (its head: %d): %v", nd.name(), heights(refs), how, head.NumberU64(), err)
 		o.drop(nd)
@@ -288,22 +293,29 @@ func (o *c06) repeat(img *simdisk.Disk, rf *blockRef, first outcome) {
 			continue
 		}
 		// a disagreement: measure how often the two (or more) outcomes occur
-		freq := map[outcome]int{first: 1, out: 1}
+		fresh := map[outcome]int{out: 1}
 		const more = 10
 		for j := 0; j < more; j++ {
 			x, ok := one()
 			if !ok {
 				break
 			}
-			freq[x]++
+			fresh[x]++
 		}
 		var parts []string
-		for oc, c := range freq {
+		for oc, c := range fresh {
 			parts = append(parts, fmt.Sprintf("%dx {%s}", c, oc))
 		}
 		sort.Strings(parts)
-		r.Report("repeated-import-disagrees", "block %d imported %d times on fresh importer objects over the same disk image gave different results (depends on map iteration order): %s",
-			rf.blk.NumberU64(), more+2, strings.Join(parts, " ; "))
+		if len(fresh) == 1 {
+			// every fresh importer (cold caches, state read from disk) agrees with the others
+			// and disagrees with the node that has been running all along: cache dependence
+			r.Report("cold-import-disagrees-with-warm-import", "block %d: the importer that has been running since genesis got {%s}; %d fresh importers opened on a copy of its disk (as of the parent block) all got {%s}", rf.blk.NumberU64(), first, more+1, out)
+			return
+		}
+		r.Report("execution-disagrees-with-builder", "executing one block several times on fresh state objects over the same parent state (import path without header verification and writes) does not always reproduce the commitments the builder sealed")
+		s.amend("execution-disagrees-with-builder", fmt.Sprintf(" | measured at block %d, %d whole imports on fresh importer objects over the same disk image: %s ; first (long-running) importer {%s}", rf.blk.NumberU64(), more+1, strings.Join(parts, " ; "), first))
+		s.stopRun = true
 		return
 	}
 }
@@ -316,14 +328,19 @@ func (o *c06) onBuilt(n int, rf *blockRef) {
 	}
 	periodEnd := (uint64(n)+1)%s.sc.F == 0
 	for _, nd := range o.nodes {
-		if nd.out {
+		if nd.out || s.stopRun {
 			continue
 		}
 		switch nd.pol {
 		case polOne:
 			var img *simdisk.Disk
 			interesting := periodEnd || len(rf.blk.Header().SlashData) > 0
-			if (interesting && s.c.Chance("repeat-interesting", 1, 2)) || (!interesting && s.c.Chance("repeat", 1, 12)) {
+			k := 6
+			if interesting || rf.stakingApplied {
+				k = 16
+			}
+			o.scratch(nd, rf, k)
+			if (interesting && s.c.Chance("repeat-interesting", 1, 4)) || (!interesting && s.c.Chance("repeat", 1, 20)) {
 				img = nd.disk.Restart()
 			}
 			o.deliver(nd, []*blockRef{rf}, "")
@@ -371,7 +388,7 @@ func (o *c06) onBuilt(n int, rf *blockRef) {
 			}
 		}
 	}
-	if o.forkOn {
+	if o.forkOn && !s.stopRun {
 		o.held = append(o.held, rf)
 		o.forkStep()
 	}
@@ -515,10 +532,18 @@ func runC06(r *kit.Run) {
 }
 
 // rejectClass names a rejection by what the rejected delivery contains (judged from the blocks
-// alone, so that a known cause can be told from a new one): a side chain with slash data; a
+// and the simulator's own record of what it posted, so that a known cause can be told from a
+// new one): a block built after a genuine evidence was posted that carries no slash data; a side chain with slash data; a
 // side chain in which a staking transaction applied in one block is still pending when a later
 // block of the same delivery ends the staking period; anything else.
 func (o *c06) rejectClass(refs []*blockRef, side bool) string {
+	for _, rf := range refs {
+		if rf.evidenceUnrecorded {
+			// the builder was handed a genuine evidence for the parent round and sealed a block
+			// without slash data
+			return "block-built-with-unrecorded-evidence-rejected"
+		}
+	}
 	if !side {
 		return "import-rejected"
 	}
@@ -540,4 +565,103 @@ func (o *c06) rejectClass(refs []*blockRef, side bool) string {
 		}
 	}
 	return "import-rejected"
+}
+
+// scratch executes block rf k times on fresh scratch states opened on its parent in the
+// importer's database, exactly the way insertChain does between header verification and
+// WriteBlockWithState (core/blockchain.go:377-399: StakingRootForNewBlock, state.New,
+// Processor.Process, Validator.ValidateState) — the importer's head is the parent, so slash
+// data is replayed as in a real import. Nothing is written. Every execution must reproduce
+// the builder's commitments and receipts. Fresh StateDB objects mean fresh maps: Go randomises
+// iteration per map instance, so k executions sample k iteration orders; with a disagreement
+// frequency f per execution an order dependence is missed with probability (1-f)^k.
+func (o *c06) scratch(nd *impNode, rf *blockRef, k int) {
+	freq, bad := o.scratchOutcomes(nd, rf, k)
+	if bad > 0 && len(freq) >= 2 {
+		o.orderDependent(rf, k, freq)
+	}
+	// (every execution failing the same way is a deterministic disagreement: the import
+	// that follows reports it under its own class)
+}
+
+// orderDependent reports that executions of one block over one parent state disagree and ends
+// the run: what importers make of this block (and so everything after it) is a matter of map
+// iteration order from here on.
+func (o *c06) orderDependent(rf *blockRef, k int, freq map[string]int) {
+	s, r := o.s, o.s.r
+	var parts []string
+	for m, c := range freq {
+		parts = append(parts, fmt.Sprintf("%dx {%s}", c, clip(m, 260)))
+	}
+	sort.Strings(parts)
+	r.Report("execution-disagrees-with-builder", "executing one block several times on fresh state objects over the same parent state (import path without header verification and writes) does not always reproduce the commitments the builder sealed")
+	s.amend("execution-disagrees-with-builder", fmt.Sprintf(" | measured at block %d, %d executions: %s", rf.blk.NumberU64(), k, strings.Join(parts, " ; ")))
+	s.stopRun = true
+}
+
+// diagnose is called when a node failed to adopt main-chain blocks: if re-executing the first
+// block it did not adopt gives different results from execution to execution, the failure is
+// one face of an order dependence (reported as such, run ended); otherwise it is deterministic
+// and reported under its own class by the caller.
+func (o *c06) diagnose(nd *impNode) bool {
+	head := nd.chain().CurrentBlock()
+	next := int(head.NumberU64()) + 1
+	if next > len(o.refs) {
+		return false
+	}
+	rf := o.refs[next-1]
+	if rf.blk.ParentHash() != head.Hash() {
+		return false
+	}
+	const k = 32
+	freq, _ := o.scratchOutcomes(nd, rf, k)
+	if len(freq) >= 2 {
+		o.orderDependent(rf, k, freq)
+		return true
+	}
+	return false
+}
+
+func (o *c06) scratchOutcomes(nd *impNode, rf *blockRef, k int) (freq map[string]int, bad int) {
+	s, r := o.s, o.s.r
+	freq = map[string]int{}
+	chain := nd.chain()
+	blk := rf.blk
+	parent := chain.GetBlock(blk.ParentHash(), blk.NumberU64()-1)
+	if parent == nil || chain.CurrentBlock().Hash() != parent.Hash() {
+		return
+	}
+	yp, err := chain.VersionForRound(blk.NumberU64())
+	if err != nil {
+		return
+	}
+	for i := 0; i < k; i++ {
+		st, err := chain.StateAt(parent.Root(), parent.ValRoot(), core.StakingRootForNewBlock(yp.StakingTrieFrequency, parent.Header()))
+		if err != nil {
+			r.Report("imported-state-unreadable", "importer %q: state of block %d: %v", nd.name(), parent.NumberU64(), err)
+			return
+		}
+		out := "ok"
+		ok := s.do(func() {
+			res, e := chain.Processor().Process(yp, blk, st, *chain.GetVMConfig(), local.FakeRecorder())
+			if e == nil {
+				e = chain.Validator().ValidateState(blk, parent, st, res.Recs, res.UsedGas)
+			}
+			if e != nil {
+				out = e.Error()
+			} else if _, dg := receiptsText(res.Recs); dg != rf.rcDigest {
+				out = "receipts differ from the builder's although their hash and bloom match"
+			}
+		})
+		if !ok {
+			o.kill(nd)
+			return
+		}
+		r.Count("scratch-executions", 1)
+		if out != "ok" {
+			bad++
+		}
+		freq[out]++
+	}
+	return
 }
